@@ -175,6 +175,8 @@ def _parse_open_file(file_obj, parse_options=None):
     headers = [''] * len(headers)
 
   rows = rows[data_offset:]
+  # The headers were sized on the sample only; rows further down may be wider.
+  headers = import_utils.expand_headers(headers, 0, rows)
   num_rows = parse_options.get('NUM_ROWS', 0)
   table_data_with_types = parse_data.get_table_data(rows, len(headers), num_rows)
 
